@@ -118,7 +118,7 @@ func toPath(it PItem) generic.Path {
 	case "id":
 		return generic.NewPathFieldId(thrift.FieldID(it.N))
 	case "idx":
-		return generic.NewPathIndex(it.N)
+		return generic.NewPathIndex(idxOf(it))
 	case "str":
 		return generic.NewPathStrKey(string(it.B))
 	case "int":
@@ -259,7 +259,7 @@ func chainNode(n generic.Node, items []PItem) generic.Node {
 		case "id":
 			n = n.Field(thrift.FieldID(it.N))
 		case "idx":
-			n = n.Index(it.N)
+			n = n.Index(idxOf(it))
 		case "str":
 			n = n.GetByStr(string(it.B))
 		case "int":
@@ -284,7 +284,7 @@ func chainValue(v generic.Value, items []PItem) generic.Value {
 		case "name":
 			v = v.FieldByName(string(it.B))
 		case "idx":
-			v = v.Index(it.N)
+			v = v.Index(idxOf(it))
 		case "str":
 			v = v.GetByStr(string(it.B))
 		case "int":
@@ -857,6 +857,14 @@ func wrongItem(v *Val, r *rand.Rand) PItem {
 	}
 }
 
+// absentRead: absentItem, with list / set indexes sometimes far beyond 2^31 (see hugeIdx)
+func absentRead(v *Val, r *rand.Rand) PItem {
+	if (v.T == tLIST || v.T == tSET) && r.Intn(4) == 0 {
+		return hugeIdx(r, len(v.E))
+	}
+	return absentItem(v, r)
+}
+
 func randPath(r *rand.Rand, v *Val) []PItem {
 	var items []PItem
 	for depth := 0; depth < 6; depth++ {
@@ -866,12 +874,12 @@ func randPath(r *rand.Rand, v *Val) []PItem {
 		case x < 12:
 			return items
 		case x < 22:
-			return append(items, absentItem(v, r))
+			return append(items, absentRead(v, r))
 		case x < 30:
 			return append(items, wrongItem(v, r))
 		case len(valid) == 0:
 			if x < 60 {
-				return append(items, absentItem(v, r))
+				return append(items, absentRead(v, r))
 			}
 			return items
 		}
@@ -967,7 +975,7 @@ func (c *c01) genRandom(seed int64, base, n int, big bool) {
 				}
 			}
 			if r.Intn(3) == 0 {
-				ab := absentItem(pv, r)
+				ab := absentRead(pv, r)
 				if ab.K == k0 {
 					its = append(its, ab)
 				}
